@@ -203,7 +203,7 @@ class Oracle:
             c.count('oracle.pattern.uncopyable')
             return
         for it, n in zip(items, counts):
-            if n:
+            if n or it['mult'] == 'Counted':          # the count lives in the header: clearing the list alone is not a value
                 continue
             name = '_' + it['field'] if hasattr(x, '_' + it['field']) else it['field']
             if not hasattr(x, name):
@@ -313,6 +313,13 @@ def key_outside_table(obj):
     for o in graph(obj).values():
         for k in type(o).__mro__:
             for field, keys in KEY_TABLES.get(k.__name__, ()):
+                if field.startswith('type:'):
+                    # kind chosen by the type byte: the TTLV type of the object held by the attribute must be a modelled row
+                    f = field[5:]
+                    a = getattr(o, '_' + f, None) if hasattr(o, '_' + f) else getattr(o, f, None)
+                    if a is not None and getattr(getattr(a, 'type', None), 'value', None) not in keys:
+                        return True
+                    continue
                 a = getattr(o, '_' + field, None) if hasattr(o, '_' + field) else getattr(o, field, None)
                 if a is None:
                     continue
@@ -323,14 +330,15 @@ def key_outside_table(obj):
     return False
 
 
-REBIND = set()       # classes whose reader rebinds kmip_version from their own ProtocolVersion item (headers)
+REBIND = {}          # class -> 0: its reader rebinds kmip_version from its own ProtocolVersion item (headers);
+                     #          1: from the ProtocolVersion of the header structure it starts with (whole messages)
 
 
 def announces_other_version(cname, bs, v):
     """the structure starts with a well-formed ProtocolVersion item that names a version other than v"""
     if cname not in REBIND:
         return False
-    b = bs[8:]
+    b = bs[8 + 8 * REBIND[cname]:]
     if len(b) >= 40 and b[:8] == bytes.fromhex('4200690100000020') and b[8:16] == bytes.fromhex('42006a0200000004') \
             and b[24:32] == bytes.fromhex('42006b0200000004'):
         major, minor = struct.unpack('!i', b[16:20])[0], struct.unpack('!i', b[32:36])[0]
@@ -367,10 +375,12 @@ def struct_cases(ctx, doc, oracle, only=None):
     per_class = {}
     KEY_TABLES.clear()
     REBIND.clear()
-    REBIND.update(c['name'] for c in doc['classes'] if c.get('rebind') is not None)
+    REBIND.update({c['name']: (1 if c.get('rebind_nested') else 0) for c in doc['classes'] if c.get('rebind') is not None})
     for cdoc in doc['classes']:
         for it in cdoc['rd']:
-            if it.get('by'):
+            if it.get('by') and it['by'].get('src') == 'next_type':
+                KEY_TABLES.setdefault(cdoc['name'], []).append(('type:' + it['field'], {row[0][1] for row in it['by']['table']}))
+            elif it.get('by'):
                 KEY_TABLES.setdefault(cdoc['name'], []).append((it['by']['key_field'], {row[0][1] for row in it['by']['table']}))
     for cdoc in doc['classes']:
         cname = cdoc['name']
@@ -423,7 +433,7 @@ def struct_cases(ctx, doc, oracle, only=None):
                 ctx.count('struct.valid.%s' % ('accept' if obj is not None else 'reject'))
                 ctx.case_seen((cname, v, bs), nontrivial=True)
                 if obj is not None:
-                    ov = [rng.choice(others)] if others and rng.random() < 0.5 else []
+                    ov = [rng.choice(others)] if others and rng.random() < 0.5 and cname not in REBIND else []
                     oracle.accepted(cname, cls, v, bs, obj, rest, True, ov)
                 else:
                     # the encoder produced a schema-valid value the real reader refuses: the correspondence will
@@ -458,7 +468,7 @@ def struct_cases(ctx, doc, oracle, only=None):
                     if obj is not None:
                         oracle.accepted(cname, cls, v, bs, obj, rest, False)
             # a value generated for another version, decoded under this one
-            for v2 in others:
+            for v2 in ([] if cname in REBIND else others):
                 if [i['tag'] for i in schema.active(cname, v2)] != [i['tag'] for i in schema.active(cname, v)]:
                     val = gen.struct(cname, v2, 0)
                     bs = sg.encode(tag, val)
@@ -965,14 +975,19 @@ def run(ctx):
     t_classes = {c['name'] for c in doc['classes']}
     ctx.cov['translator'] = {
         'classes_with_read_write': len(doc['all_class_names']),
-        'under_T': len(doc['classes']),
+        'under_T': len([c for c in doc['classes'] if 'stub' not in c.get('flags', [])]),
+        'stub_classes': sorted(c['name'] for c in doc['classes'] if 'stub' in c.get('flags', [])),
+        'schema_v3': doc.get('schema_v3', False),
+        'dispatch_keys_outside_the_model': {c['name'] + '.' + it['field']: it['by']['dropped'] for c in doc['classes'] for it in c['rd']
+                                            if it.get('by') and it['by'].get('dropped')},
         'under_T_names': sorted(t_classes),
         'excluded': doc['excluded'],
         'listed_but_translatable': doc['listed_but_translatable'],
         'class_level_min_version': {c['name']: c['minver'] for c in doc['classes'] if c.get('minver')},
         'validate_called_in_read_or_write': sorted(c['name'] for c in doc['classes'] if 'validate' in c.get('flags', [])),
     }
-    ctx.log('translator: %d of %d classes under T, %d excluded' % (len(doc['classes']), len(doc['all_class_names']), len(doc['excluded'])))
+    ctx.log('translator: %d of %d classes under T (+%d stub), %d excluded' % (
+        ctx.cov['translator']['under_T'], len(doc['all_class_names']), len(ctx.cov['translator']['stub_classes']), len(doc['excluded'])))
 
     # --- E_ok on the regenerated environment, independently of props/C01.v
     okE, out, err = ctx.coq_eval('env_ok', header + 'Eval vm_compute in (env_ok E, map c_name (filter (fun k => negb (cls_ok E k)) (e_classes E))).\n')
@@ -1005,3 +1020,36 @@ def run(ctx):
         'self.validate() inside read/write is accepted by the translator when validate() can only raise TypeError (never on reader-built objects); tied by K only',
         'classes with a class-level minimum version are tied for versions >= the minimum; below it the refusal is checked directly',
     ]
+
+
+# ------------------------------------------------------------------ replay of a recorded violation
+def replay(ctx, payload):
+    """bin/check C01 --replay <file>: feed the recorded bytes to the recorded class under the recorded version again."""
+    inp = payload.get('input') or {}
+    cname, v = inp.get('class'), inp.get('kmip_version')
+    detail = inp.get('detail') if isinstance(inp.get('detail'), dict) else {}
+    hexes = [h for h in (detail.get('encoded'), inp.get('input_hex'), inp.get('encoded')) if isinstance(h, str)]
+    cls = next((c for _, n, c, _ in all_struct_classes() if n == cname), None)
+    if cls is None or not hexes or v not in sg.VERSIONS:
+        print('replay: nothing replayable in this file (class %r, version %r)' % (cname, v))
+        return 2
+    oracle = Oracle(ctx)
+    rc = 0
+    for h in hexes:
+        try:
+            bs = bytes.fromhex(h)
+        except ValueError:
+            continue
+        obj, rest = impl_read(cls, bs, v)
+        if obj is None:
+            print('replay: %s.read refuses %s... under KMIP %s with %s' % (cname, h[:48], v, rest))
+            if 'rejected' in str(payload.get('what', '')) or 'rejected' in str((payload.get('signature') or {}).get('check', '')):
+                rc = 1
+            continue
+        print('replay: %s.read accepts %s... under KMIP %s; running the round-trip oracle' % (cname, h[:48], v))
+        oracle.accepted(cname, cls, v, bs, obj, rest, False, [x for x in sg.VERSIONS if x != v][:1])
+    for viol in ctx.violations:
+        print('replay: VIOLATION reproduced:', viol['what'], json.dumps(viol['witness'])[:300])
+        rc = 1
+    print('replay: %s' % ('the violation reproduces' if rc else 'the violation does not reproduce on this tree'))
+    return rc
